@@ -284,7 +284,7 @@ func errorSites(fns []*ssa.Function) []errSite {
 			for _, ins := range b.Instrs {
 				if c, ok := ins.(*ssa.Call); ok {
 					n := callName(&c.Call)
-					if n == "fmt.Errorf" || n == "errors.New" {
+					if n == "fmt.Errorf" || n == "errors.New" || isErrorCtorHelper(c.Call.StaticCallee()) {
 						out = append(out, errSite{f, c})
 					}
 				}
@@ -292,6 +292,31 @@ func errorSites(fns []*ssa.Function) []errSite {
 		}
 	}
 	return out
+}
+
+// isErrorCtorHelper: a straight-line function of the module that returns exactly one value, an error it
+// creates with fmt.Errorf / errors.New (a "newErrXxx" helper): calling it is an error site of the caller.
+func isErrorCtorHelper(g *ssa.Function) bool {
+	if g == nil || len(g.Blocks) != 1 || g.Signature.Results().Len() != 1 || !isErrorType(g.Signature.Results().At(0).Type()) {
+		return false
+	}
+	if load.Current == nil || !load.Current.InModule(g) {
+		return false
+	}
+	ret, ok := g.Blocks[0].Instrs[len(g.Blocks[0].Instrs)-1].(*ssa.Return)
+	if !ok {
+		return false
+	}
+	v := ret.Results[0]
+	if mi, ok := v.(*ssa.MakeInterface); ok {
+		v = mi.X
+	}
+	c, ok := v.(*ssa.Call)
+	if !ok {
+		return false
+	}
+	n := callName(&c.Call)
+	return n == "fmt.Errorf" || n == "errors.New"
 }
 
 // failedLookup: is ins behind the false edge of `_, ok := m[k]`? returns the lookup.
